@@ -31,11 +31,14 @@ type Rec struct {
 }
 
 type App struct {
-	Layer    int
-	N        int
-	In, Out  *Rec // Out is nil if the application never returned
-	Children []*App
-	Parent   *App
+	Started    int     // hedge layers: attempts started (1 + OnHedge events)
+	StartTimes []int64 // hedge layers: instants of the OnHedge events
+	LateChild  bool    // an attempt only got to run after the application had returned
+	Layer      int
+	N          int
+	In, Out    *Rec // Out is nil if the application never returned
+	Children   []*App
+	Parent     *App
 }
 
 type probe struct {
@@ -50,6 +53,9 @@ func (p *probe) Apply(inner func(failsafe.Execution[int]) *common.PolicyResult[i
 		app := p.env.recEnter(p.layer, exec)
 		r := inner(exec)
 		p.env.recExit(p.layer, app, exec, r)
+		if p.layer < len(p.env.Stack) && p.env.Stack[p.layer].Kind == KHedge {
+			p.env.sampleHedgeCancel(p.layer, app)
+		}
 		return r
 	}
 }
@@ -58,7 +64,8 @@ func (p *probe) Apply(inner func(failsafe.Execution[int]) *common.PolicyResult[i
 func (env *Env) recEnter(layer int, exec failsafe.Execution[int]) int {
 	app := env.appCount[layer]
 	env.appCount[layer]++
-	rec := &Rec{Layer: layer, Enter: true, App: app, Seq: len(env.Recs), T: vrt.Elapsed(), Thread: vrt.ThreadID(), Exec: exec}
+	env.seq++
+	rec := &Rec{Layer: layer, Enter: true, App: app, Seq: env.seq, T: vrt.Elapsed(), Thread: vrt.ThreadID(), Exec: exec}
 	if env.ProbeStats {
 		rec.Attempts, rec.Execs, rec.Retries, rec.Hedges, rec.IsHedge = exec.Attempts(), exec.Executions(), exec.Retries(), exec.Hedges(), exec.IsHedge()
 	}
@@ -68,7 +75,8 @@ func (env *Env) recEnter(layer int, exec failsafe.Execution[int]) int {
 
 //go:norace
 func (env *Env) recExit(layer, app int, exec failsafe.Execution[int], r *common.PolicyResult[int]) {
-	rec := &Rec{Layer: layer, App: app, Seq: len(env.Recs), T: vrt.Elapsed(), Thread: vrt.ThreadID(), Exec: exec, Res: r}
+	env.seq++
+	rec := &Rec{Layer: layer, App: app, Seq: env.seq, T: vrt.Elapsed(), Thread: vrt.ThreadID(), Exec: exec, Res: r}
 	if env.ProbeStats {
 		rec.Attempts, rec.Execs, rec.Retries, rec.Hedges, rec.IsHedge = exec.Attempts(), exec.Executions(), exec.Retries(), exec.Hedges(), exec.IsHedge()
 	}
@@ -128,6 +136,9 @@ func (env *Env) Apps() (roots []*App, byLayer [][]*App) {
 			open[r.Layer] = append(open[r.Layer], a)
 		} else {
 			a := find(r.Layer, r.App)
+			if a == nil {
+				continue
+			}
 			a.Out = r
 			for i, o := range open[r.Layer] {
 				if o == a {
@@ -137,5 +148,82 @@ func (env *Env) Apps() (roots []*App, byLayer [][]*App) {
 			}
 		}
 	}
+	env.reattributeHedgeChildren(byLayer)
 	return
+}
+
+// reattributeHedgeChildren: a hedge application starts 1 + (number of its OnHedge events) attempts,
+// each on a new goroutine that may only get to run after the application has returned. The
+// attempts of an application are therefore taken to be the earliest not yet attributed entries of
+// the layer inside it, in order, as many as it started.
+func (env *Env) reattributeHedgeChildren(byLayer [][]*App) {
+	for i, s := range env.Stack {
+		if s.Kind != KHedge || i+1 >= len(byLayer) {
+			continue
+		}
+		for _, c := range byLayer[i+1] {
+			c.Parent = nil
+		}
+		taken := map[*App]bool{}
+		for _, a := range byLayer[i] {
+			a.Children = nil
+			a.Started = 1
+			hi := 1 << 60
+			if a.Out != nil {
+				hi = a.Out.Seq
+			}
+			for _, e := range env.Events {
+				if e.Policy == i && e.Name == "hedge" && e.Seq > a.In.Seq && e.Seq < hi {
+					a.Started++
+					a.StartTimes = append(a.StartTimes, e.At)
+				}
+			}
+			for _, c := range byLayer[i+1] {
+				if len(a.Children) == a.Started {
+					break
+				}
+				if !taken[c] && c.In.Seq > a.In.Seq {
+					taken[c] = true
+					c.Parent = a
+					a.Children = append(a.Children, c)
+					if a.Out != nil && c.In.Seq > a.Out.Seq {
+						a.LateChild = true
+					}
+				}
+			}
+		}
+	}
+}
+
+// sampleHedgeCancel records, at the moment a hedge application returns, which of its attempts'
+// executions are cancelled.
+func (env *Env) sampleHedgeCancel(layer, app int) {
+	var in *Rec
+	for _, r := range env.recsSnapshot() {
+		if r.Layer == layer && r.App == app && r.Enter {
+			in = r
+		}
+	}
+	if in == nil {
+		return
+	}
+	for _, r := range env.recsSnapshot() {
+		if r.Layer == layer+1 && r.Enter && r.Seq > in.Seq {
+			c := r.Exec.IsCanceled()
+			env.setCancelAtReturn(r, c)
+		}
+	}
+}
+
+//go:norace
+func (env *Env) recsSnapshot() []*Rec { return env.Recs[:len(env.Recs):len(env.Recs)] }
+
+//go:norace
+func (env *Env) setCancelAtReturn(r *Rec, c bool) {
+	if env.CancelAtReturn == nil {
+		env.CancelAtReturn = map[*Rec]bool{}
+	}
+	if _, ok := env.CancelAtReturn[r]; !ok {
+		env.CancelAtReturn[r] = c
+	}
 }
